@@ -1,5 +1,5 @@
-/- C20 / C16 / C03 — regenerated obligations for compress.go / compress_datadog.go: the configuration of the
-   package-wide zstd encoder and decoder (harness/extract/compressfacts.go) -/
+/- C20 / C16 / C03 — regenerated obligation for compress.go / compress_datadog.go: the configuration of the
+   package-wide zstd DECODER (harness/extract/compressfacts.go) -/
 import Desync.Generated.Facts
 
 namespace Desync.C20
@@ -22,19 +22,6 @@ theorem gen_decoder_unbounded :
     Gen.compressDecoderOptions = [] ∧
     Gen.compressDefaultDecompressBody = ["return decoder.DecodeAll(src, dst)"] ∧
     Gen.compressDatadogDecompressBody = ["return zstd.Decompress(out, in)"] ∧
-    Gen.compressOtherVars = [] ∧ Gen.compressSharedAssigners = [] := by decide
-
-/-- the encoder every chunk is written with is `zstd.NewWriter(nil)` WITHOUT options (default level, default window,
-    content checksum as the package defaults decide, no dictionary): whatever changes the frames desync writes turns
-    this red; `Compress` is `EncodeAll` on that shared encoder into a fresh buffer and nothing else.  The cgo variant is
-    `zstd.CompressLevel(nil, b, 3)`. -/
-theorem gen_encoder_standard_frames :
-    Gen.site_compressDefault_found = true ∧ Gen.site_compressDatadog_found = true ∧
-    Gen.site_compressEncoderCtor_found = true ∧
-    Gen.compressEncoderCtor = "zstd.NewWriter" ∧ Gen.compressEncoderTarget = "nil" ∧
-    Gen.compressEncoderOptions = [] ∧
-    Gen.compressDefaultCompressBody = ["return encoder.EncodeAll(src, make([]byte, 0, len(src))), nil"] ∧
-    Gen.compressDatadogCompressBody = ["return zstd.CompressLevel(nil, b, 3)"] ∧
     Gen.compressOtherVars = [] ∧ Gen.compressSharedAssigners = [] := by decide
 
 end Desync.C20
